@@ -124,6 +124,11 @@ def rule_ack(R):
     qc = outq.role_fn(f, "queue_control")
     cen = outq.census(f)
     pushes = [(b, c) for (b, c, m, mut) in cen["pending_control"]["calls"] if m in outq.GROW]
+    re = outq.rearm_sites(f)
+    _, ccode = roles.session_connect(f)
+    R.ob("ack/replayed-whole", any(q.get("pending_control") == "always" for n, q in re.items() if outq.calls_to(f, ccode, f.bodies[n])),
+         "an acknowledgement still owed when the connection is lost is sent again from its first byte on the next "
+         "connection (every control entry is re-armed unconditionally)")
     R.ob("ack/own-queue", len(pushes) == 1 and pushes[0][0].name == qc.name,
          "acknowledgements are queued in `pending_control` only (even when all retained slots are taken)", where=qc.span)
 
